@@ -202,6 +202,14 @@ def run_c01(ctx):
     ctx.validate("Wkb_Trace", shards, stage="replay-of-TLC-shape-set")
     shards = ctx.gen("wkbrandom")
     ctx.validate("Wkb_Trace", shards, stage="random-geometries")
+    # streams: one Encoder / Decoder pair over one pipe (encoder settings and scratch buffer persist between calls)
+    ctx.mc("WkbStreamMC", "WkbStreamMC_%s.cfg" % ctx.tier, workers=8,
+           note="stream model: the pipe is a FIFO of self-delimiting messages for every history of set-order / set-SRID / encode / decode operations")
+    cases = ctx.tlcgen("WkbStreamMC", "WkbStreamGen.cfg", workers=4)
+    shards = ctx.gen("wkbstream", cases=cases)
+    ctx.validate("WkbStream_Trace", shards, stage="replay-of-TLC-stream-histories")
+    shards = ctx.gen("wkbstreamrandom")
+    ctx.validate("WkbStream_Trace", shards, stage="random-stream-histories")
     ctx.exhaustive = True
     ctx.notes.append("exhaustive part: the 534-shape bounded set x {wkb, ewkb} x {LE, BE} x SRIDs x 10 scanner destinations x 4 framings")
 
@@ -487,7 +495,10 @@ def run_c05(ctx):
 def sig_c05(ev):
     s = sig_default(ev)
     if ev.get("k") == "panic" and str(ev.get("origin", "")).startswith("go.mongodb.org/mongo-driver/bson/bsonrw.(*valueReader)") \
-            and "geojson.(" in str(ev.get("site", "")) and str(ev.get("site", "")).endswith("UnmarshalBSON"):
+            and (("geojson.(" in str(ev.get("site", "")) and str(ev.get("site", "")).endswith("UnmarshalBSON"))
+                 or (ev.get("site") == "unknown" and str(ev.get("fn", "")).startswith("bson"))):
+        # site "unknown": bson.Unmarshal copies the raw value (and panics on a negative length word) before it ever
+        # calls the orb UnmarshalBSON method, so no orb frame is on the stack; same third-party defect, same finding
         return "panic:geojson BSON unmarshallers<-go.mongodb.org/mongo-driver/bson/bsonrw.(*valueReader)"
     return s
 
